@@ -27,6 +27,12 @@ Lemma inb4_true {A} (a : arr A) n0 n1 n2 n3 i j k l :
 Proof. intros E Hi Hj Hk Hl. unfold inb. rewrite E. cbn [inb_sh].
   repeat (apply andb_true_intro; split); first [ reflexivity | apply Z.leb_le; lia | apply Z.ltb_lt; lia ]. Qed.
 
+Lemma inb_sub2_true {A} (a : arr A) n0 n1 l i j :
+  shape a = n0 :: n1 :: l -> 0 <= i < n0 -> 0 <= j < n1 -> inb_sub a [i; j] = true.
+Proof. intros E Hi Hj. unfold inb_sub. rewrite E. cbn [inb_prefix].
+  repeat (apply andb_true_intro; split);
+    first [ reflexivity | apply Z.leb_le; lia | apply Z.ltb_lt; lia | destruct l; reflexivity ]. Qed.
+
 (* one index obligation: the array may be wrapped in `set`s *)
 Ltac inb_solve :=
   unfold obI;
@@ -34,6 +40,7 @@ Ltac inb_solve :=
         | eapply inb3_true; [ eassumption | lia | lia | lia ]
         | eapply inb4_true; [ eassumption | lia | lia | lia | lia ]
         | eapply inb1_true; [ eassumption | lia ]
+        | eapply inb_sub2_true; [ eassumption | lia | lia ]
         | rewrite !inb_set;
           first [ eapply inb2_true; [ eassumption | lia | lia ]
                 | eapply inb3_true; [ eassumption | lia | lia | lia ]
@@ -57,18 +64,25 @@ Ltac use_imps :=
   end.
 
 (* let-bound values are turned into variables: a continuation `k := fun u => ...` becomes a variable with
-   `forall u, k u = true` (proved once), any other value a variable x with `x = v` (arrays: only the shape is kept) *)
+   `forall u, Q u -> k u = true` (proved once), any other value a variable x with `x = v` (arrays: only the shape
+   is kept, loop results: only the loop invariant is kept) *)
 Lemma let_eq_true {A} (v : A) (F : A -> bool) : (forall x, x = v -> F x = true) -> (let x := v in F x) = true.
 Proof. intros Hf. exact (Hf v eq_refl). Qed.
 Lemma let_fun_true {A} (f : A -> bool) (R : (A -> bool) -> bool) :
   (forall u, f u = true) -> (forall k, (forall u, k u = true) -> R k = true) -> (let k := f in R k) = true.
 Proof. intros Hf HR. exact (HR f Hf). Qed.
+Lemma let_fun_true_pre {A} (Q : A -> Prop) (f : A -> bool) (R : (A -> bool) -> bool) :
+  (forall u, Q u -> f u = true) -> (forall k, (forall u, Q u -> k u = true) -> R k = true) ->
+  (let k := f in R k) = true.
+Proof. intros Hf HR. exact (HR f Hf). Qed.
+Lemma shape_set_sub {A} (a : arr A) idx s : shape (set_sub a idx s) = shape a.
+Proof. reflexivity. Qed.
 
 Ltac let_post x Hx :=
   lazymatch type of x with
   | arr _ =>
       let S := fresh "S" in
-      pose proof (f_equal shape Hx) as S; rewrite ?shape_set in S;
+      pose proof (f_equal shape Hx) as S; rewrite ?shape_set, ?shape_set_sub in S;
       try match type of S with
           | _ = shape ?a => match goal with Ha : shape a = _ |- _ => rewrite Ha in S end
           end;
@@ -78,37 +92,63 @@ Ltac let_post x Hx :=
   end.
 
 (* walks through an obligation term: conjunctions, lets (see above), conditionals (integer comparisons are
-   decided once and for all, any other condition is destructed as a whole and remembered), calls of
+   decided once and for all, any other condition is destructed as a whole and remembered), loops (`inv` is the
+   loop invariant, a predicate on the loop state, and `inv_solve` proves it of a state expression), calls of
    let-bound continuations, leaves closed by `leaf` *)
-Ltac ok_walk leaf :=
+Ltac ok_walk_gen inv inv_solve leaf :=
   lazymatch goal with
   | |- true = true => reflexivity
-  | |- andb _ _ = true => apply andb_true_intro; split; ok_walk leaf
+  | |- andb _ _ = true => apply andb_true_intro; split; ok_walk_gen inv inv_solve leaf
   | |- (let x := ?v in @?F x) = true =>
       let tv := type of v in
       lazymatch tv with
       | _ -> bool =>
-          refine (let_fun_true v F _ _);
-          [ intro; cbv beta; ok_walk leaf
-          | let k := fresh "k" in let Hk := fresh "Hk" in intros k Hk; cbv beta; ok_walk leaf ]
+          first
+            [ refine (let_fun_true_pre inv v F _ _);
+              [ let u := fresh "u" in let Hu := fresh "Hu" in
+                intros u Hu; cbv beta in Hu; cbv beta; ok_walk_gen inv inv_solve leaf
+              | let k := fresh "k" in let Hk := fresh "Hk" in
+                intros k Hk; cbv beta; ok_walk_gen inv inv_solve leaf ]
+            | refine (let_fun_true v F _ _);
+              [ intro; cbv beta; ok_walk_gen inv inv_solve leaf
+              | let k := fresh "k" in let Hk := fresh "Hk" in
+                intros k Hk; cbv beta; ok_walk_gen inv inv_solve leaf ] ]
       | _ =>
           let x := fresh "x" in let Hx := fresh "Hx" in
-          refine (let_eq_true v F _); intros x Hx; cbv beta; let_post x Hx; ok_walk leaf
+          refine (let_eq_true v F _); intros x Hx; cbv beta;
+          lazymatch v with
+          | fst _ => subst x
+          | snd _ => subst x
+          | for_list _ _ _ =>
+              let Sx := fresh "Sx" in
+              assert (Sx : inv x) by (rewrite Hx; cbv beta zeta; inv_solve); cbv beta in Sx; clear Hx
+          | _ => let_post x Hx
+          end;
+          ok_walk_gen inv inv_solve leaf
       end
   | |- (if ?c then ?a else ?b) = true =>
       let c' := eval cbn [andb negb orb] in c in
       lazymatch c' with
-      | true => change (a = true); ok_walk leaf
-      | false => change (b = true); ok_walk leaf
+      | true => change (a = true); ok_walk_gen inv inv_solve leaf
+      | false => change (b = true); ok_walk_gen inv inv_solve leaf
       | context [Z.eqb ?p ?q] =>
           let E := fresh "E" in
-          destruct (Z.eqb p q) eqn:E; [ apply Z.eqb_eq in E | apply Z.eqb_neq in E ]; ok_walk leaf
-      | _ => let E := fresh "E" in destruct c eqn:E; bool_hyps_ns; use_imps; ok_walk leaf
+          destruct (Z.eqb p q) eqn:E; [ apply Z.eqb_eq in E | apply Z.eqb_neq in E ];
+          ok_walk_gen inv inv_solve leaf
+      | _ => let E := fresh "E" in destruct c eqn:E; bool_hyps_ns; use_imps; ok_walk_gen inv inv_solve leaf
       end
+  | |- for_list_ok _ _ _ _ = true =>
+      let s := fresh "s" in let Hs := fresh "Hs" in
+      apply for_list_ok_inv with (P := inv);
+      [ cbv beta zeta; inv_solve
+      | intros ? s ? Hs; cbv beta in Hs; split;
+        [ cbv beta zeta; inv_solve | cbv beta; ok_walk_gen inv inv_solve leaf ] ]
   | |- obD false _ = true => reflexivity
   | Hk : forall u, ?k u = true |- ?k _ = true => apply Hk
+  | Hk : forall u, _ -> ?k u = true |- ?k _ = true => apply Hk; cbv beta; inv_solve
   | |- _ => leaf
   end.
+Ltac ok_walk leaf := ok_walk_gen (fun _ : unit => True) idtac leaf.
 
 (* direction pattern along one axis, as used by the sweeping loops:
    (sgnv, sgnt) = (1, 1) with 1 <= idx <= n-1   or   (0, -1) with 0 <= idx <= n-2 *)
